@@ -267,6 +267,13 @@ func (jr *jpegReader) readExif() (err error) {
 		return err
 	}
 
+	if remain < 8 {
+		// less than a TIFF header behind the Exif identifier: the segment
+		// holds no Exif block (the next 8 bytes belong to the segments
+		// that follow)
+		return jr.discard(remain)
+	}
+
 	// Peek at TiffHeader information
 	if buf, err = jr.peek(exifPrefixLength); err != nil {
 		return err
